@@ -6,11 +6,17 @@
 EXTENDS CharSets, DyadicLog2
 
 ChooseAny(s) == CHOOSE x \in s : TRUE
-TermBig(r, S) == Pow(FromInt(AvoidSize(r, S)), r.len)
-SumTerms(r, Ss) == MapThenFoldSet(Add, <<>>, LAMBDA S : TermBig(r, S), ChooseAny, Ss)
-\* inclusion-exclusion over the live required sets:  count = Pos - Neg  (Pos >= Neg always)
-PosSum(r) == SumTerms(r, {T \in SUBSET LiveReq(r) : Cardinality(T) % 2 = 0})
-NegSum(r) == SumTerms(r, {T \in SUBSET LiveReq(r) : Cardinality(T) % 2 = 1})
+\* A string meets every live required set iff it meets the MINIMAL distinct ones (hitting A hits every superset of A; equal sets
+\* are one constraint), so inclusion-exclusion runs over those: 17 required sets of which 16 are nested cost 4 terms, not 2^17.
+\* MC_CharCount checks this count against the per-index formula (CharSets!CountValidInt) and against brute force.
+LiveSets(r) == {ReqSets(r)[i] : i \in LiveReq(r)}
+MinReq(r) == {s \in LiveSets(r) : ~\E t \in LiveSets(r) : t # s /\ t \subseteq s}
+AvoidSizeOf(r, Ss) == Cardinality(Alphabet(r) \ UNION Ss)
+TermBig(r, Ss) == Pow(FromInt(AvoidSizeOf(r, Ss)), r.len)
+SumTerms(r, Sss) == MapThenFoldSet(Add, <<>>, LAMBDA Ss : TermBig(r, Ss), ChooseAny, Sss)
+\* inclusion-exclusion over the minimal live required sets:  count = Pos - Neg  (Pos >= Neg always)
+PosSum(r) == SumTerms(r, {T \in SUBSET MinReq(r) : Cardinality(T) % 2 = 0})
+NegSum(r) == SumTerms(r, {T \in SUBSET MinReq(r) : Cardinality(T) % 2 = 1})
 CountValidBig(r) == Sub(PosSum(r), NegSum(r))
 \* what the code's n() computes: an emptied required set is counted as unsatisfiable
 CountCodeBig(r) == IF HasEmptiedReq(r) THEN <<>> ELSE CountValidBig(r)
@@ -18,9 +24,9 @@ CountCodeBig(r) == IF HasEmptiedReq(r) THEN <<>> ELSE CountValidBig(r)
 \* modular fingerprint of the count for very long passwords (no big multiplication):
 \*   count mod p  =  sum over subsets of (+-) (|avoid| ^ len mod p)
 CountModP(r, p) ==
-  LET term(S) == PowModInt(AvoidSize(r, S) % p, r.len, p)
-      pos == MapThenSumSet(term, {T \in SUBSET LiveReq(r) : Cardinality(T) % 2 = 0})
-      neg == MapThenSumSet(term, {T \in SUBSET LiveReq(r) : Cardinality(T) % 2 = 1})
+  LET term(Ss) == PowModInt(AvoidSizeOf(r, Ss) % p, r.len, p)
+      pos == MapThenSumSet(term, {T \in SUBSET MinReq(r) : Cardinality(T) % 2 = 0})
+      neg == MapThenSumSet(term, {T \in SUBSET MinReq(r) : Cardinality(T) % 2 = 1})
   IN  (((pos - neg) % p) + p) % p
 FingerprintPrimes == {32749, 32719, 32717, 32713, 32707, 32693, 32687, 32653, 32647, 32633, 32621, 32611}
 
